@@ -1,7 +1,221 @@
-//! stub
-use serde_json::Value;
-use crate::engine::Ctx;
-pub const RULE: &str = "";
-pub const ASSUMPTIONS: &[&str] = &[];
-pub fn run(_ctx: &Ctx) {}
-pub fn replay(_part: &str, _case: &Value) -> Result<(), String> { Err("not implemented".into()) }
+//! C18 — serial bus pacing: 30 ms after a data chunk, 100 ms after an in-progress report.
+
+use std::time::{Duration, Instant};
+
+use flipdot_core::SignBus;
+use flipdot_serial::SerialSignBus;
+use serde::{Deserialize, Serialize};
+use serde_json::{json, Value};
+
+use crate::engine::{catch, Ctx, Stats};
+use crate::io::port::{PortState, TestPort};
+use crate::props::c16::{reply_expected, wire_of};
+use crate::repr::M;
+
+pub const RULE: &str = "every (message kind, reply kind) pair is enumerated on every run: 19 message kinds (data chunks of 3 lengths, chunk count, hello, query, goodbye, pixels complete, the 6 requests, report, ack, unknown frame) and, for the kinds that get a reply, every reply (13 state reports, 6 acknowledgements, an unknown frame, a data chunk). Each pair is run as 'message, then a query' on an instrumented port that timestamps the start/end of every write()/read() call with a monotonic clock. Lower bounds asserted on every trial: a data chunk's last write -> the next message's first write >= 30 ms; the read that delivered a page-load/show-in-progress report -> return >= 100 ms. For every other message / reply the minimum over repeated trials (5, adaptively up to 200) of write->next-I/O and read->return must be below 30 ms. Non-trivial = each distinct (message kind, reply kind) pair";
+pub const ASSUMPTIONS: &[&str] = &[
+    "thread::sleep never returns early and Instant is monotonic, so the lower bounds cannot be disturbed by load",
+    "an unpaced exchange is only declared delayed when all of up to 200 trials exceed 30 ms, so scheduler noise cannot raise an alarm; a spurious delay shorter than 30 ms is not detected (the statement only speaks of 'either of these amounts')",
+];
+
+#[derive(Serialize, Deserialize, Debug, Clone, PartialEq, Eq, Hash)]
+pub struct PaceCase {
+    pub msg: M,
+    pub reply: Option<M>,
+}
+
+struct Trial {
+    /// last write call of the message -> next I/O call start (read of the reply, or first write of the follow-up message)
+    after_write: Duration,
+    /// end of the read call that delivered the line feed -> return of process_message (None if no reply read)
+    after_read: Option<Duration>,
+    /// last write call of the message -> first write call of the follow-up message
+    to_next_write: Duration,
+}
+
+fn one_trial(c: &PaceCase) -> Result<Trial, String> {
+    let mut tape = vec![];
+    if reply_expected(&c.msg) {
+        if let Some(r) = &c.reply {
+            tape.extend_from_slice(&wire_of(r));
+            tape.extend_from_slice(b"\r\n");
+        }
+    }
+    // the follow-up query's reply
+    tape.extend_from_slice(&wire_of(&M::Report(1, 0)));
+    tape.extend_from_slice(b"\r\n");
+    let port = TestPort::with_state(PortState::new(tape));
+    let h = port.handle();
+    let mut bus = SerialSignBus::try_new(port).map_err(|e| format!("try_new failed: {e}"))?;
+    let r1 = catch(|| bus.process_message(c.msg.to_message()).map(|_| ()).map_err(|e| e.to_string())).map_err(|p| format!("panic: {p}"))?;
+    let returned = Instant::now();
+    r1.map_err(|e| format!("process_message({}) failed on a cooperative port: {e}", c.msg.short()))?;
+    let (n_w1, n_r1) = {
+        let s = h.borrow();
+        (s.write_calls.len(), s.read_calls.len())
+    };
+    let r2 = catch(|| bus.process_message(M::Query(1).to_message()).map(|_| ()).map_err(|e| e.to_string())).map_err(|p| format!("panic: {p}"))?;
+    r2.map_err(|e| format!("follow-up query failed: {e}"))?;
+    let s = h.borrow();
+    if n_w1 == 0 || s.write_calls.len() <= n_w1 {
+        return Err("the port saw no write for one of the two messages".into());
+    }
+    let last_write_end = s.write_calls[n_w1 - 1].at;
+    let next_write_start = s.write_calls[n_w1].started;
+    let (after_write, after_read) = if n_r1 > 0 {
+        let first_read_start = s.read_calls[0].started;
+        let last_read_end = s.read_calls[n_r1 - 1].at;
+        (first_read_start.saturating_duration_since(last_write_end), Some(returned.saturating_duration_since(last_read_end)))
+    } else {
+        (next_write_start.saturating_duration_since(last_write_end), None)
+    };
+    Ok(Trial { after_write, after_read, to_next_write: next_write_start.saturating_duration_since(last_write_end) })
+}
+
+const SEND_PACE: Duration = Duration::from_millis(30);
+const RECV_PACE: Duration = Duration::from_millis(100);
+
+pub fn check_pace(c: &PaceCase, st: &mut Stats, max_trials: usize) -> Result<(), String> {
+    let is_chunk = matches!(c.msg, M::Data { .. });
+    let in_progress = reply_expected(&c.msg) && matches!(c.reply, Some(M::Report(_, 8)) | Some(M::Report(_, 10)));
+    let mut min_after_write = Duration::from_secs(3600);
+    let mut min_after_read = Duration::from_secs(3600);
+    let mut trials = 0;
+    loop {
+        let t = one_trial(c)?;
+        trials += 1;
+        st.eval();
+        // lower bounds hold on every single trial
+        if is_chunk && t.to_next_write < SEND_PACE {
+            return Err(format!(
+                "the message after a data chunk ({}) was written {:?} after the chunk, less than 30 ms",
+                c.msg.short(),
+                t.to_next_write
+            ));
+        }
+        if in_progress {
+            let d = t.after_read.unwrap_or_default();
+            if d < RECV_PACE {
+                return Err(format!(
+                    "after receiving {} the bus returned after {:?}, less than 100 ms",
+                    c.reply.as_ref().map(|r| r.short()).unwrap_or_default(),
+                    d
+                ));
+            }
+        }
+        min_after_write = min_after_write.min(t.after_write);
+        if let Some(d) = t.after_read {
+            min_after_read = min_after_read.min(d);
+        }
+        let write_ok = is_chunk || min_after_write < SEND_PACE;
+        let read_ok = in_progress || t.after_read.is_none() || min_after_read < SEND_PACE;
+        if trials >= 5 && write_ok && read_ok {
+            break;
+        }
+        if write_ok && read_ok && (is_chunk || in_progress) && trials >= 3 {
+            break;
+        }
+        if trials >= max_trials {
+            if !write_ok {
+                return Err(format!(
+                    "{} is delayed: in {trials} trials the bus never went on in under 30 ms after writing it (minimum {:?}) although it is not a data chunk",
+                    c.msg.short(),
+                    min_after_write
+                ));
+            }
+            return Err(format!(
+                "the reply {} to {} is delayed: in {trials} trials the bus never returned in under 30 ms after reading it (minimum {:?}) although it is not an in-progress report",
+                c.reply.as_ref().map(|r| r.short()).unwrap_or_default(),
+                c.msg.short(),
+                min_after_read
+            ));
+        }
+    }
+    st.class(if is_chunk {
+        "paced:data-chunk"
+    } else if in_progress {
+        "paced:in-progress-report"
+    } else {
+        "unpaced"
+    });
+    st.nontrivial_enumerated(1);
+    st.sample(json!({"message": c.msg.short(), "reply": c.reply.as_ref().map(|r| r.short()), "trials": trials,
+        "min_write_to_next_io_us": min_after_write.as_micros() as u64,
+        "min_read_to_return_us": if min_after_read.as_secs() >= 3600 { Value::Null } else { json!(min_after_read.as_micros() as u64) }}));
+    Ok(())
+}
+
+pub fn all_pairs(addr: u16) -> Vec<PaceCase> {
+    let mut msgs: Vec<M> = vec![
+        M::Data { off: 0, data: vec![0xAA; 16] },
+        M::Data { off: 16, data: vec![] },
+        M::Data { off: 32, data: vec![1; 255] },
+        M::Count(3),
+        M::Hello(addr),
+        M::Query(addr),
+        M::Goodbye(addr),
+        M::PixelsComplete(addr),
+        M::Report(addr, 8),
+        M::Ack(addr, 2),
+        M::Unknown { addr, ty: 0x33, data: vec![0x11] },
+        // looks like an in-progress report but is not one: type 4 with two data bytes
+        M::Unknown { addr, ty: 4, data: vec![0x13, 0x00] },
+    ];
+    for o in 0..6 {
+        msgs.push(M::Req(addr, o));
+    }
+    let mut replies: Vec<M> = (0..13).map(|s| M::Report(addr, s)).collect();
+    replies.extend((0..6).map(|o| M::Ack(addr, o)));
+    replies.push(M::Unknown { addr, ty: 0x44, data: vec![] });
+    replies.push(M::Data { off: 0, data: vec![0x13] });
+    replies.push(M::Report(addr ^ 0x0101, 10)); // an in-progress report from another address is still an in-progress report
+    let mut out = vec![];
+    for m in msgs {
+        if reply_expected(&m) {
+            for r in &replies {
+                out.push(PaceCase { msg: m.clone(), reply: Some(r.clone()) });
+            }
+        } else {
+            out.push(PaceCase { msg: m, reply: None });
+        }
+    }
+    out
+}
+
+pub fn run(ctx: &Ctx) {
+    let addrs: &[u16] = ctx.tier.pick(&[3u16, 0xFFFF][..], &[3u16, 0, 0xFFFF, 0x0100, 0x7F, 0x8000][..]);
+    let max_trials = ctx.tier.pick(200, 400);
+    let mut cases = vec![];
+    for &a in addrs {
+        cases.extend(all_pairs(a));
+    }
+    let n = cases.len();
+    let next = std::sync::atomic::AtomicUsize::new(0);
+    // sleeping costs no CPU, but the *unpaced* measurements want an idle core: moderate parallelism
+    std::thread::scope(|sc| {
+        for _ in 0..24 {
+            let cases = &cases;
+            let next = &next;
+            sc.spawn(move || {
+                let mut st = Stats::new();
+                loop {
+                    let i = next.fetch_add(1, std::sync::atomic::Ordering::Relaxed);
+                    if i >= cases.len() || ctx.stopped() {
+                        break;
+                    }
+                    if let Err(m) = check_pace(&cases[i], &mut st, max_trials) {
+                        ctx.fail("pairs", serde_json::to_value(&cases[i]).unwrap(), m);
+                        break;
+                    }
+                }
+                ctx.merge("pairs", st);
+            });
+        }
+    });
+    ctx.part_done("pairs", true, json!({"message_reply_pairs": n, "addresses": addrs, "max_trials_before_declaring_a_delay": max_trials}));
+}
+
+pub fn replay(_part: &str, case: &Value) -> Result<(), String> {
+    let c: PaceCase = serde_json::from_value(case.clone()).map_err(|e| format!("bad case: {e}"))?;
+    check_pace(&c, &mut Stats::new(), 200)
+}
